@@ -9,7 +9,7 @@ import (
 func init() {
 	register(&Property{
 		ID:          "C05",
-		Explanation: "Decides structural necessary conditions of at-most-once session semantics: in the function that applies a session-managed proposal the user state machine is updated only after the session lookup succeeded (unless it is the no-op session), only on the 'update required' outcome and never on the 'already responded' outcome; every path from a successful update to a normal exit with a session records the result (unconditionally - the record is also the 'already applied' marker); the unknown-session path reports rejected without reaching the state machine; the responded-to watermark is advanced before the dedup test; the dedup test itself still consults the watermark and the history; session state is written only by Session methods; the session table is part of every snapshot, written before and read before the user payload, with every persisted field restored; serialisation is order-deterministic. Does not decide at-most-once over all operation sequences.",
+		Explanation: "Decides structural necessary conditions of at-most-once session semantics: in the function that applies a session-managed proposal the user state machine is updated only after the session lookup succeeded (unless it is the no-op session), only on the 'update required' outcome and never on the 'already responded' outcome; every path from a successful update to a normal exit with a session records the result (unconditionally - the record is also the 'already applied' marker); the unknown-session path reports rejected without reaching the state machine; the responded-to watermark is advanced before the dedup test; the dedup test itself still consults the watermark and the history; session state is written only by Session methods; the session table is part of every snapshot, written before and read before the user payload, with every persisted field restored; serialisation is order-deterministic. Does not decide at-most-once over all operation sequences. The session image written into a snapshot is serialised from the live table on every successful path.",
 		NotCovered:  "dedup over arbitrary op sequences, cut points and LRU eviction orders; JSON encoding details (encoding/json sorts map keys: trusted)",
 		Run:         runC05,
 	})
